@@ -18,9 +18,10 @@ import (
 
 // ---- random programs, richer than the exhaustive universes of ResolverGen ----
 
-// GenProg draws a program: 1-4 functions with 0-3 parameters, bodies of up
+// GenProg draws a program: 1-4 functions with 0-4 parameters, bodies of up
 // to 4 statements that may use globals directly, calls with fewer arguments
-// than parameters, recursion.  Uses follow an intended typing most of the
+// than parameters (the omitted ones being any mix of scalars and local
+// arrays), recursion.  Uses follow an intended typing most of the
 // time so that a good share of the programs is accepted.
 func GenProg(r *rand.Rand) *Prog {
 	nf := 1 + r.Intn(4)
@@ -28,7 +29,7 @@ func GenProg(r *rand.Rand) *Prog {
 	p := &Prog{Funcs: make([]Func, nf)}
 	intent := map[[2]int]bool{} // node -> intended to be an array
 	for f := 1; f <= nf; f++ {
-		p.Funcs[f-1].Np = r.Intn(4)
+		p.Funcs[f-1].Np = r.Intn(5)
 		for i := 1; i <= p.Funcs[f-1].Np; i++ {
 			intent[[2]int{f, i}] = r.Intn(2) == 0
 		}
